@@ -261,16 +261,17 @@ Section PdrSysProofs.
   (** ** the concrete model on a system of the class: Success is sound with respect to Spec/System.v *)
   Definition has_bads_of : bool := match s_bads sy with [] => false | _ => true end.
 
-  Theorem pdr_model_success_sound_sys (W : Type)
-          (solve : nat -> query slit -> answer slit (sstate sy)) (gen_on : bool) (bmc_result : bmc_answer W)
-          (fuel bf : nat) (st' : pst slit (sstate sy)) :
-    (forall n q, truthful slit slit_eqb (sstate sy) (slit_holds sy) (st_bad0 sy) (st_step0 sy) (st_trans sy) (st_bad sy)
+  Theorem pdr_model_success_sound_sys (W EM : Type)
+          (solve : nat -> query slit -> answer slit (sstate sy) EM) (cmd_fail : nat -> option EM) (n_init : nat)
+          (gen_on : bool) (bmc_result : bmc_answer W EM)
+          (fuel bf : nat) (st' : pst slit (sstate sy) EM) :
+    (forall n q, truthful slit slit_eqb (sstate sy) EM (slit_holds sy) (st_bad0 sy) (st_step0 sy) (st_trans sy) (st_bad sy)
                           q (solve n q)) ->
-    pdr slit slit_eqb (sstate sy) (scube sy) W solve gen_on has_bads_of bmc_result fuel bf = Ok (VSuccess W, st') ->
+    pdr slit slit_eqb (sstate sy) (scube sy) W EM solve cmd_fail n_init gen_on has_bads_of bmc_result fuel bf = Ok (VSuccess W, st') ->
     ~ bad_reachable sy.
   Proof.
     intros Htr H. apply ssafe_not_reachable.
-    apply (pdr_model_success_sound slit slit_eqb (sstate sy) (scube sy) W solve gen_on has_bads_of bmc_result
+    apply (pdr_model_success_sound slit slit_eqb (sstate sy) (scube sy) W EM solve cmd_fail n_init gen_on has_bads_of bmc_result
                                    (slit_holds sy) (st_bad0 sy) (st_step0 sy) (st_trans sy) (st_bad sy) fuel bf st'); [| exact H].
     split; [exact scube_unique |]. split; [exact Htr |].
     unfold has_bads_of. intros Hb. apply no_bads_sys. destruct (s_bads sy); [reflexivity | discriminate Hb].
@@ -407,35 +408,37 @@ Section PdrSysProofs.
         now rewrite (some_bad_agree sy Hcls _ _ Hag).
   Qed.
 
-  Theorem pdr_model_fail_real_sys (W : Type)
-          (solve : nat -> query slit -> answer slit (sstate sy)) (gen_on : bool) (bmc_result : bmc_answer W)
-          (fuel bf : nat) (w : W) (st' : pst slit (sstate sy)) :
-    (forall n q, truthful slit slit_eqb (sstate sy) (slit_holds sy) (st_bad0 sy) (st_step0 sy) (st_trans sy) (st_bad sy)
+  Theorem pdr_model_fail_real_sys (W EM : Type)
+          (solve : nat -> query slit -> answer slit (sstate sy) EM) (cmd_fail : nat -> option EM) (n_init : nat)
+          (gen_on : bool) (bmc_result : bmc_answer W EM)
+          (fuel bf : nat) (w : W) (st' : pst slit (sstate sy) EM) :
+    (forall n q, truthful slit slit_eqb (sstate sy) EM (slit_holds sy) (st_bad0 sy) (st_step0 sy) (st_trans sy) (st_bad sy)
                           q (solve n q)) ->
-    pdr slit slit_eqb (sstate sy) (scube sy) W solve gen_on has_bads_of bmc_result fuel bf = Ok (VFail W w, st') ->
-    bmc_result = BmcFail W w /\ exists d, (d <= MAX_FRAMES)%nat /\ bad_reachable_within sy d.
+    pdr slit slit_eqb (sstate sy) (scube sy) W EM solve cmd_fail n_init gen_on has_bads_of bmc_result fuel bf = Ok (VFail W w, st') ->
+    bmc_result = BmcFail W EM w /\ exists d, (d <= MAX_FRAMES)%nat /\ bad_reachable_within sy d.
   Proof.
     intros Htr H.
-    destruct (pdr_model_fail_real slit slit_eqb (sstate sy) (scube sy) W solve gen_on has_bads_of bmc_result
+    destruct (pdr_model_fail_real slit slit_eqb (sstate sy) (scube sy) W EM solve cmd_fail n_init gen_on has_bads_of bmc_result
                                   (slit_holds sy) (st_bad0 sy) (st_step0 sy) (st_trans sy) (st_bad sy) fuel bf w st') as (Hb & d & Hd & Hu); [| exact H |].
     - split; [exact scube_unique |]. split; [exact Htr |].
       unfold has_bads_of. intros Hb. apply no_bads_sys. destruct (s_bads sy); [reflexivity | discriminate Hb].
     - split; [exact Hb |]. exists d. split; [exact Hd | now apply unsafe_exec].
   Qed.
 
-  Theorem pdr_model_definite_sys (W : Type)
-          (solve : nat -> query slit -> answer slit (sstate sy)) (gen_on : bool) (bmc_result : bmc_answer W)
+  Theorem pdr_model_definite_sys (W EM : Type)
+          (solve : nat -> query slit -> answer slit (sstate sy) EM) (cmd_fail : nat -> option EM) (n_init : nat)
+          (gen_on : bool) (bmc_result : bmc_answer W EM)
           (fuel bf : nat) :
-    (forall n q, truthful slit slit_eqb (sstate sy) (slit_holds sy) (st_bad0 sy) (st_step0 sy) (st_trans sy) (st_bad sy)
+    (forall n q, truthful slit slit_eqb (sstate sy) EM (slit_holds sy) (st_bad0 sy) (st_step0 sy) (st_trans sy) (st_bad sy)
                           q (solve n q)) ->
-    (forall n q, solve n q <> AUnknown slit (sstate sy)) ->
-    match pdr slit slit_eqb (sstate sy) (scube sy) W solve gen_on has_bads_of bmc_result fuel bf with
-    | Err _ | Panic _ => False
+    no_faults slit (sstate sy) W EM solve cmd_fail bmc_result ->
+    match pdr slit slit_eqb (sstate sy) (scube sy) W EM solve cmd_fail n_init gen_on has_bads_of bmc_result fuel bf with
+    | Err _ _ | Panic _ => False
     | Ok _ | Fuel => True
     end.
   Proof.
     intros Htr Htot.
-    apply (pdr_model_no_error slit slit_eqb (sstate sy) (scube sy) W solve gen_on has_bads_of bmc_result
+    apply (pdr_model_no_error slit slit_eqb (sstate sy) (scube sy) W EM solve cmd_fail n_init gen_on has_bads_of bmc_result
                               (slit_holds sy) (st_bad0 sy) (st_step0 sy) (st_trans sy) (st_bad sy) fuel bf); [| exact Htot].
     split; [exact scube_unique |]. split; [exact Htr |].
     unfold has_bads_of. intros Hb. apply no_bads_sys. destruct (s_bads sy); [reflexivity | discriminate Hb].
